@@ -12,6 +12,7 @@ import CookModel.Lemmas.AstBuild
 import CookModel.Lemmas.SpansUtf8
 import CookModel.Lemmas.SpansTexts
 import CookModel.Lemmas.ReportPrep
+import CookModel.Lemmas.FrontMatterDoc
 /-
   C04  Every reported source location is in bounds, on char boundaries, faithful.
 
@@ -707,5 +708,82 @@ example : (assignColors 0 [⟨0,0⟩,⟨1,1⟩,⟨2,2⟩,⟨3,3⟩,⟨4,4⟩,⟨
 example : sortLabels [⟨4, 5⟩, ⟨0, 1⟩, ⟨0, 0⟩] = [⟨0, 0⟩, ⟨0, 1⟩, ⟨4, 5⟩] := by
   simp [sortLabels, List.mergeSort, List.MergeSort.Internal.splitInTwo, Span.le]
 example : lineIndex "ab\n\nc".toList = [(0, ['a', 'b']), (3, []), (4, ['c'])] := by decide
+
+/-! ### the front-matter branch of the analysis (`process_frontmatter`, Analysis/FrontMatter.lean) -/
+
+/-- **`yaml_find_key_position` returns the start of a line of the YAML text**: whenever it finds the key,
+    the position is a character boundary of the text that is 0 or directly follows a line feed, with at
+    least one character after it — whatever the indentation of the line and whatever the line ending
+    (`start`, the index inside the `trim_start`ed line that the code adds to the offset of the UNtrimmed
+    line, is always 0 because ASCII blanks are Unicode blanks).  So the label is never inside a
+    multi-byte character and never past the end of the slice. -/
+theorem C04_yaml_key_position_is_line_start (text key : Str) (p : Nat)
+    (h : FM.yamlFindKeyPosition text key = some p) : FM.LineStart text p :=
+  FM.fmx_yamlFind_lineStart text key p h
+
+/-- **Every label of every front-matter diagnostic is a line start inside the YAML slice.**  For an
+    input with front matter whose YAML decodes to a mapping (any decoder, any validator, any converter):
+    every diagnostic `process_frontmatter` pushes — `metadata-validator`, `std-unsupported-value`,
+    "Time overriden" — is an analysis-stage diagnostic whose labels are all of the form
+    `Span::pos(yaml_offset + p)` with `p` the start of a line of the YAML text (the line
+    `yaml_find_key_position` found for some key). -/
+theorem C04_front_matter_labels_are_line_starts {α : Type} [Arith α] (fe : FM.Env α) (fm : FrontMatter)
+    (m : List (SM.Y × SM.Y)) (hd : fe.decode fm.yamlText = .ok m) :
+    ∀ d ∈ (FM.processFrontmatter fe (FM.docYaml fm)).diags, d.stage = .analysis ∧
+      ∀ l ∈ d.labels, ∃ p, FM.LineStart fm.yamlText p ∧ l = Span.pos (fm.yamlOffset + p) := by
+  intro d hdm
+  have hd' : fe.decode (FM.docYaml fm).text = .ok m := by rw [FM.fmd_docYaml_text]; exact hd
+  obtain ⟨hst, _, hl⟩ := FM.fmx_process_ok_diags fe (FM.docYaml fm) m hd' d hdm
+  refine ⟨hst, fun l hlm => ?_⟩
+  obtain ⟨key, p, hp, e⟩ := hl l hlm
+  rw [FM.fmd_docYaml_text] at hp
+  rw [FM.fmd_docYaml_start] at e
+  exact ⟨p, FM.fmx_yamlFind_lineStart _ key p hp, e⟩
+
+/-- **`C04_analysis_labels_ok` with the front matter interpreted.**  For every input WITH front matter,
+    every extension set and environment, every decoder result, validator and converter (`fe`): every
+    label of every diagnostic of the whole report of `parse` and of `parse_metadata` — the
+    diagnostics of `process_frontmatter` (validator, unsupported standard value, "Time overriden", YAML
+    error) followed by all the others (`FM.fullDiags`) — is a valid span of the input: in bounds, on
+    character boundaries, `start ≤ end`.  The only thing assumed is about `serde_yaml` (external): the
+    location of a YAML error, when there is one, is a character boundary of the slice (`hloc`; checked on
+    every run by the oracle `c04:span:label:*`). -/
+theorem C04_front_matter_labels_ok {α : Type} [Arith α] (env : Env) (fe : FM.Env α) (input : Str)
+    (fm : FrontMatter) (h : parseFrontmatter env.cs input = some fm)
+    (hloc : ∀ i, fe.decode fm.yamlText = .err (some i) → Boundary 0 fm.yamlText i) :
+    (∀ d ∈ (FM.fullDiags fe (parseRecipe (α := α) env input)).toList, ∀ l ∈ d.labels, SpanOK 0 input l) ∧
+    (∀ d ∈ (FM.fullDiags fe (parseMetadata (α := α) env input)).toList, ∀ l ∈ d.labels, SpanOK 0 input l) := by
+  have hs := C04_frontmatter_yaml_slice env.cs input fm h
+  have hfm := FM.fmd_labels_ok fe input fm hs hloc
+  constructor
+  · intro d hd
+    cases ho : (parseRecipe (α := α) env input).output with
+    | none =>
+      have e : FM.fullDiags fe (parseRecipe (α := α) env input) = (parseRecipe (α := α) env input).diags := by
+        unfold FM.fullDiags FM.outcomeOf; rw [ho]
+      rw [e] at hd
+      exact (C04_analysis_labels_ok env input).1 d hd
+    | some r1 =>
+      rw [(FM.fmd_full env fe input fm h r1 ho).2.1, Array.toList_append, List.mem_append] at hd
+      rcases hd with hd | hd
+      · exact hfm d (by simpa using hd)
+      · exact (C04_analysis_labels_ok env input).1 d hd
+  · intro d hd
+    obtain ⟨r2, _, _, e, _⟩ := FM.fmd_meta (α := α) env fe input fm h
+    rw [e] at hd
+    exact hfm d (by simpa using hd)
+
+/-! non-vacuity: a key on the second, indented line of a CRLF text with a two-byte character before it
+    is found at the start of that line (byte 12), not at the key; the hypotheses of
+    `C04_front_matter_labels_ok` hold for the toy table on `---⏎a: 1⏎---⏎b` with a decoder that reports
+    an error at byte 1 of the slice -/
+example : FM.yamlFindKeyPosition "título: x\r\n  prep time : 5\r\n".toList "prep time".toList = some 12 := by decide
+example : FM.yamlFindKeyPosition "\"time\": 1h\n".toList "time".toList = none := by decide
+example : ∃ fm, parseFrontmatter toyCharSpec "---\na: 1\n---\nb".toList = some fm ∧
+    ∀ i, (FM.Decoded.err (some 1) = .err (some i)) → Boundary 0 fm.yamlText i := by
+  refine ⟨⟨"a: 1\n".toList, 4, "b".toList, 13⟩, by rfl, ?_⟩
+  intro i hi
+  cases hi
+  exact ⟨['a'], ": 1\n".toList, rfl, rfl⟩
 
 end Cook
